@@ -247,8 +247,12 @@ def _kernel(ctx: Ctx) -> None:
     except Unsupported:
         ok_ret = False
     ctx.ob("D8.1", fi, after[0] if after else outer, ok_ret,
-           "after the last day the team travels home from wherever it is",
-           construct="return leg")
+           "after the last day the team travels home from wherever it is"
+           if ok_ret else
+           "after the last day the distance from the CURRENT location back "
+           "home is not always added (the return-leg statement depends on "
+           "something other than the current location, or adds another "
+           "distance)", construct="return leg")
     # ---- result
     rets = [r for r in ast.walk(fi.node) if isinstance(r, ast.Return)]
     ok_res = len(rets) == 1 and len_name in ast.unparse(rets[0].value) and \
